@@ -22,13 +22,17 @@
    Iteration (Range) loads the table pointer once (I0) and then reads the buckets of that table in order,
    each in one step under the bucket's lock (I1): [hyield] is what it has yielded so far, per key (a key
    lives in one bucket of a table version, so it is yielded at most once — the sequential theorems'
-   layout), [hwitf] the ghost index of the map each key's binding was read from.  No proofs here. *)
+   layout), [hwitf] the ghost index of the map each key's binding was read from.
+
+   Size: every table version has a counter [cnt]; a writer adds what its update owes (+1 insert, -1
+   delete) AFTER releasing the bucket lock (step Wadd), to the table it updated; a resize counts the
+   entries it copies and the new table starts with that count.  No proofs here. *)
 From Coq Require Import List Arith Bool ZArith.
 Import ListNotations.
 Local Open Scope nat_scope.
 
 Inductive hpc :=
-| W0 | W1 | W2 | Wwait | W3 | W4 | W5 | W6
+| W0 | W1 | W2 | Wwait | W3 | W4 | W5 | Wadd | W6
 | R0 | Rwait | R1 | R2 | R3
 | HDone
 | G0 | G1 | GDone
@@ -42,7 +46,9 @@ Record hthread := mkHth {
   hres : option Z;                                (* reader: the value read *)
   hst : nat; hwit : nat; happ : nat;              (* ghosts *)
   hyield : Z -> option Z;                         (* iteration: what has been yielded, per key *)
-  hwitf : Z -> nat }.                             (* ghost: per key, index of the map it was read from *)
+  hwitf : Z -> nat;                               (* ghost: per key, index of the map it was read from *)
+  hdelta : Z;                                     (* writer: the size adjustment it owes its table (+1 insert, -1 delete) *)
+  hncnt : Z }.                                    (* resize: entries copied so far (the new table's size counter) *)
 
 Record hcstate := mkHcs {
   lens : list nat;                      (* length (number of root buckets) of every table version *)
@@ -53,10 +59,12 @@ Record hcstate := mkHcs {
   spec : Z -> option Z;                 (* ghost: the abstract map *)
   hist : list (Z -> option Z);          (* ghost: every value the abstract map has had, oldest first *)
   froz : nat -> nat;                    (* ghost: index in hist at which a version was replaced *)
+  cnt : nat -> Z;                       (* the size counter of every table version *)
   hths : list hthread }.
 
 Section Model.
 Variable hidx : nat -> Z -> nat.        (* the hash of a key under the seed of table version g *)
+Variable U : list Z.                    (* the keys of the run (a resize counts the entries it copies among them) *)
 
 Definition len_of (s : hcstate) (g : nat) : nat := nth g (lens s) 1.
 Definition bidx_of (s : hcstate) (g : nat) (k : Z) : nat := hidx g k mod len_of s g.
@@ -74,15 +82,20 @@ Fixpoint upd_nth {A} (i : nat) (x : A) (l : list A) : list A :=
   | h :: t, S j => h :: upd_nth j x t
   end.
 
+Definition is_some {A} (x : option A) : bool := match x with Some _ => true | None => false end.
+(* what an update owes the table's size counter *)
+Definition delta_of (old new : option Z) : Z :=
+  match old, new with None, Some _ => 1%Z | Some _, None => (-1)%Z | _, _ => 0%Z end.
+
 Definition set_pc (t : hthread) (p : hpc) : hthread :=
-  mkHth p (hkey t) (hfun t) (hsnap t) (hbi t) (hcop t) (hnt t) (hnlen t) (hretry t) (hres t) (hst t) (hwit t) (happ t) (hyield t) (hwitf t).
+  mkHth p (hkey t) (hfun t) (hsnap t) (hbi t) (hcop t) (hnt t) (hnlen t) (hretry t) (hres t) (hst t) (hwit t) (happ t) (hyield t) (hwitf t) (hdelta t) (hncnt t).
 
 (* after a resize: a writer that asked for it before its update tries again *)
 Definition ret_pc (t : hthread) : hthread :=
-  mkHth (if hretry t then W0 else HDone) (hkey t) (hfun t) (hsnap t) (hbi t) (hcop t) (hnt t) (hnlen t) false (hres t) (hst t) (hwit t) (happ t) (hyield t) (hwitf t).
+  mkHth (if hretry t then W0 else HDone) (hkey t) (hfun t) (hsnap t) (hbi t) (hcop t) (hnt t) (hnlen t) false (hres t) (hst t) (hwit t) (happ t) (hyield t) (hwitf t) (hdelta t) (hncnt t).
 
 Definition with_ths (s : hcstate) (i : nat) (t : hthread) : hcstate :=
-  mkHcs (lens s) (stores s) (lk s) (hcur s) (resizing s) (spec s) (hist s) (froz s) (upd_nth i t (hths s)).
+  mkHcs (lens s) (stores s) (lk s) (hcur s) (resizing s) (spec s) (hist s) (froz s) (cnt s) (upd_nth i t (hths s)).
 
 (* one step of thread i; [o] is the step's input: at W4 whether the table must grow first, at W6 whether
    a shrink is attempted, at R0 whether the attempt gives up, at R1 which bucket is copied next *)
@@ -91,17 +104,17 @@ Definition hstep (s : hcstate) (i o : nat) : hcstate :=
   | None => s
   | Some t =>
       match hpc_ t with
-      | W0 => with_ths s i (mkHth W1 (hkey t) (hfun t) (hcur s) (bidx_of s (hcur s) (hkey t)) (hcop t) (hnt t) (hnlen t) (hretry t) (hres t) (hst t) (hwit t) (happ t) (hyield t) (hwitf t))
+      | W0 => with_ths s i (mkHth W1 (hkey t) (hfun t) (hcur s) (bidx_of s (hcur s) (hkey t)) (hcop t) (hnt t) (hnlen t) (hretry t) (hres t) (hst t) (hwit t) (happ t) (hyield t) (hwitf t) (hdelta t) (hncnt t))
       | W1 => if lk s (hsnap t) (hbi t) then s
-              else mkHcs (lens s) (stores s) (upd_fun2 (lk s) (hsnap t) (hbi t) true) (hcur s) (resizing s) (spec s) (hist s) (froz s)
+              else mkHcs (lens s) (stores s) (upd_fun2 (lk s) (hsnap t) (hbi t) true) (hcur s) (resizing s) (spec s) (hist s) (froz s) (cnt s)
                          (upd_nth i (set_pc t W2) (hths s))
       | W2 => if resizing s
-              then mkHcs (lens s) (stores s) (upd_fun2 (lk s) (hsnap t) (hbi t) false) (hcur s) (resizing s) (spec s) (hist s) (froz s)
+              then mkHcs (lens s) (stores s) (upd_fun2 (lk s) (hsnap t) (hbi t) false) (hcur s) (resizing s) (spec s) (hist s) (froz s) (cnt s)
                          (upd_nth i (set_pc t Wwait) (hths s))
               else with_ths s i (set_pc t W3)
       | Wwait => if resizing s then s else with_ths s i (set_pc t W0)
       | W3 => if Nat.eqb (hcur s) (hsnap t) then with_ths s i (set_pc t W4)
-              else mkHcs (lens s) (stores s) (upd_fun2 (lk s) (hsnap t) (hbi t) false) (hcur s) (resizing s) (spec s) (hist s) (froz s)
+              else mkHcs (lens s) (stores s) (upd_fun2 (lk s) (hsnap t) (hbi t) false) (hcur s) (resizing s) (spec s) (hist s) (froz s) (cnt s)
                          (upd_nth i (set_pc t W0) (hths s))
       | W4 => match o with
               | 0 =>
@@ -109,17 +122,21 @@ Definition hstep (s : hcstate) (i o : nat) : hcstate :=
                     (upd_store (stores s) (hsnap t) (upd_fun (stores s (hsnap t)) (hkey t) (hfun t (stores s (hsnap t) (hkey t)))))
                     (lk s) (hcur s) (resizing s)
                     (upd_fun (spec s) (hkey t) (hfun t (spec s (hkey t))))
-                    (hist s ++ [upd_fun (spec s) (hkey t) (hfun t (spec s (hkey t)))]) (froz s)
-                    (upd_nth i (mkHth W5 (hkey t) (hfun t) (hsnap t) (hbi t) (hcop t) (hnt t) (hnlen t) (hretry t) (hres t) (hst t) (hwit t) (S (happ t)) (hyield t) (hwitf t)) (hths s))
+                    (hist s ++ [upd_fun (spec s) (hkey t) (hfun t (spec s (hkey t)))]) (froz s) (cnt s)
+                    (upd_nth i (mkHth W5 (hkey t) (hfun t) (hsnap t) (hbi t) (hcop t) (hnt t) (hnlen t) (hretry t) (hres t) (hst t) (hwit t) (S (happ t)) (hyield t) (hwitf t)
+                                      (delta_of (stores s (hsnap t) (hkey t)) (hfun t (stores s (hsnap t) (hkey t)))) (hncnt t)) (hths s))
               | _ =>  (* chain full, table over its load factor: unlock, grow, retry *)
-                mkHcs (lens s) (stores s) (upd_fun2 (lk s) (hsnap t) (hbi t) false) (hcur s) (resizing s) (spec s) (hist s) (froz s)
-                    (upd_nth i (mkHth R0 (hkey t) (hfun t) (hsnap t) (hbi t) (hcop t) (hnt t) 1 true (hres t) (hst t) (hwit t) (happ t) (hyield t) (hwitf t)) (hths s))
+                mkHcs (lens s) (stores s) (upd_fun2 (lk s) (hsnap t) (hbi t) false) (hcur s) (resizing s) (spec s) (hist s) (froz s) (cnt s)
+                    (upd_nth i (mkHth R0 (hkey t) (hfun t) (hsnap t) (hbi t) (hcop t) (hnt t) 1 true (hres t) (hst t) (hwit t) (happ t) (hyield t) (hwitf t) (hdelta t) (hncnt t)) (hths s))
               end
-      | W5 => mkHcs (lens s) (stores s) (upd_fun2 (lk s) (hsnap t) (hbi t) false) (hcur s) (resizing s) (spec s) (hist s) (froz s)
-                    (upd_nth i (set_pc t W6) (hths s))
+      | W5 => mkHcs (lens s) (stores s) (upd_fun2 (lk s) (hsnap t) (hbi t) false) (hcur s) (resizing s) (spec s) (hist s) (froz s) (cnt s)
+                    (upd_nth i (set_pc t Wadd) (hths s))
+      | Wadd => mkHcs (lens s) (stores s) (lk s) (hcur s) (resizing s) (spec s) (hist s) (froz s)
+                      (fun g => if Nat.eqb g (hsnap t) then (cnt s g + hdelta t)%Z else cnt s g)
+                      (upd_nth i (set_pc t W6) (hths s))
       | W6 => match o with
               | 0 => with_ths s i (set_pc t HDone)
-              | _ => with_ths s i (mkHth R0 (hkey t) (hfun t) (hsnap t) (hbi t) (hcop t) (hnt t) 0 false (hres t) (hst t) (hwit t) (happ t) (hyield t) (hwitf t))   (* shrink *)
+              | _ => with_ths s i (mkHth R0 (hkey t) (hfun t) (hsnap t) (hbi t) (hcop t) (hnt t) 0 false (hres t) (hst t) (hwit t) (happ t) (hyield t) (hwitf t) (hdelta t) (hncnt t))   (* shrink *)
               end
       | R0 => if resizing s then with_ths s i (set_pc t Rwait)
               else
@@ -127,10 +144,10 @@ Definition hstep (s : hcstate) (i o : nat) : hcstate :=
                 | 0 =>
                   let n := len_of s (hcur s) in
                   let nl := if Nat.eqb (hnlen t) 1 then 2 * n else Nat.max 1 (n / 2) in
-                  mkHcs (lens s) (stores s) (lk s) (hcur s) true (spec s) (hist s) (froz s)
-                      (upd_nth i (mkHth R1 (hkey t) (hfun t) (hcur s) (hbi t) (fun _ => false) (fun _ => None) nl (hretry t) (hres t) (hst t) (hwit t) (happ t) (hyield t) (hwitf t)) (hths s))
+                  mkHcs (lens s) (stores s) (lk s) (hcur s) true (spec s) (hist s) (froz s) (cnt s)
+                      (upd_nth i (mkHth R1 (hkey t) (hfun t) (hcur s) (hbi t) (fun _ => false) (fun _ => None) nl (hretry t) (hres t) (hst t) (hwit t) (happ t) (hyield t) (hwitf t) (hdelta t) 0%Z) (hths s))
                 | _ =>  (* takes the flag, finds nothing to do, gives up *)
-                  mkHcs (lens s) (stores s) (lk s) (hcur s) true (spec s) (hist s) (froz s) (upd_nth i (set_pc t R3) (hths s))
+                  mkHcs (lens s) (stores s) (lk s) (hcur s) true (spec s) (hist s) (froz s) (cnt s) (upd_nth i (set_pc t R3) (hths s))
                 end
       | Rwait => if resizing s then s else with_ths s i (ret_pc t)
       | R1 => if forallb (hcop t) (seq 0 (len_of s (hsnap t))) then with_ths s i (set_pc t R2)
@@ -138,27 +155,29 @@ Definition hstep (s : hcstate) (i o : nat) : hcstate :=
               then with_ths s i (mkHth R1 (hkey t) (hfun t) (hsnap t) (hbi t)
                                        (fun b => if Nat.eqb b o then true else hcop t b)
                                        (fun k => if Nat.eqb (bidx_of s (hsnap t) k) o then stores s (hsnap t) k else hnt t k)
-                                       (hnlen t) (hretry t) (hres t) (hst t) (hwit t) (happ t) (hyield t) (hwitf t))
+                                       (hnlen t) (hretry t) (hres t) (hst t) (hwit t) (happ t) (hyield t) (hwitf t) (hdelta t)
+                                       (hncnt t + Z.of_nat (length (filter (fun k => Nat.eqb (bidx_of s (hsnap t) k) o && is_some (stores s (hsnap t) k)) U)))%Z)
               else s
       | R2 => mkHcs (lens s ++ [hnlen t]) (upd_store (stores s) (length (lens s)) (hnt t)) (lk s) (length (lens s)) (resizing s) (spec s)
                     (hist s) (fun g => if Nat.eqb g (hcur s) then length (hist s) - 1 else froz s g)
+                    (fun g => if Nat.eqb g (length (lens s)) then hncnt t else cnt s g)
                     (upd_nth i (set_pc t R3) (hths s))
-      | R3 => mkHcs (lens s) (stores s) (lk s) (hcur s) false (spec s) (hist s) (froz s) (upd_nth i (ret_pc t) (hths s))
+      | R3 => mkHcs (lens s) (stores s) (lk s) (hcur s) false (spec s) (hist s) (froz s) (cnt s) (upd_nth i (ret_pc t) (hths s))
       | HDone => s
-      | G0 => with_ths s i (mkHth G1 (hkey t) (hfun t) (hcur s) (hbi t) (hcop t) (hnt t) (hnlen t) (hretry t) (hres t) (length (hist s)) (hwit t) (happ t) (hyield t) (hwitf t))
+      | G0 => with_ths s i (mkHth G1 (hkey t) (hfun t) (hcur s) (hbi t) (hcop t) (hnt t) (hnlen t) (hretry t) (hres t) (length (hist s)) (hwit t) (happ t) (hyield t) (hwitf t) (hdelta t) (hncnt t))
       | G1 => with_ths s i (mkHth GDone (hkey t) (hfun t) (hsnap t) (hbi t) (hcop t) (hnt t) (hnlen t) (hretry t)
                                   (stores s (hsnap t) (hkey t)) (hst t)
-                                  (if Nat.eqb (hsnap t) (hcur s) then length (hist s) - 1 else froz s (hsnap t)) (happ t) (hyield t) (hwitf t))
+                                  (if Nat.eqb (hsnap t) (hcur s) then length (hist s) - 1 else froz s (hsnap t)) (happ t) (hyield t) (hwitf t) (hdelta t) (hncnt t))
       | GDone => s
       | I0 => with_ths s i (mkHth I1 (hkey t) (hfun t) (hcur s) 0 (hcop t) (hnt t) (hnlen t) (hretry t) (hres t) (length (hist s)) (hwit t) (happ t)
-                                  (fun _ => None) (fun _ => 0))
+                                  (fun _ => None) (fun _ => 0) (hdelta t) (hncnt t))
       | I1 => if Nat.ltb (hbi t) (len_of s (hsnap t)) then
                 if lk s (hsnap t) (hbi t) then s
                 else with_ths s i (mkHth I1 (hkey t) (hfun t) (hsnap t) (S (hbi t)) (hcop t) (hnt t) (hnlen t) (hretry t) (hres t) (hst t) (hwit t) (happ t)
                        (fun k => if Nat.eqb (bidx_of s (hsnap t) k) (hbi t) then stores s (hsnap t) k else hyield t k)
                        (fun k => if Nat.eqb (bidx_of s (hsnap t) k) (hbi t)
                                  then (if Nat.eqb (hsnap t) (hcur s) then length (hist s) - 1 else froz s (hsnap t))
-                                 else hwitf t k))
+                                 else hwitf t k) (hdelta t) (hncnt t))
               else with_ths s i (set_pc t IDone)
       | IDone => s
       end
@@ -172,12 +191,12 @@ Inductive hop := HCompute (k : Z) (f : option Z -> option Z) | HGet (k : Z) | HR
 
 Definition thread_of (o : hop) : hthread :=
   match o with
-  | HCompute k f => mkHth W0 k f 0 0 (fun _ => false) (fun _ => None) 0 false None 0 0 0 (fun _ => None) (fun _ => 0)
-  | HGet k => mkHth G0 k (fun v => v) 0 0 (fun _ => false) (fun _ => None) 0 false None 0 0 0 (fun _ => None) (fun _ => 0)
-  | HRange => mkHth I0 0%Z (fun v => v) 0 0 (fun _ => false) (fun _ => None) 0 false None 0 0 0 (fun _ => None) (fun _ => 0)
+  | HCompute k f => mkHth W0 k f 0 0 (fun _ => false) (fun _ => None) 0 false None 0 0 0 (fun _ => None) (fun _ => 0) 0%Z 0%Z
+  | HGet k => mkHth G0 k (fun v => v) 0 0 (fun _ => false) (fun _ => None) 0 false None 0 0 0 (fun _ => None) (fun _ => 0) 0%Z 0%Z
+  | HRange => mkHth I0 0%Z (fun v => v) 0 0 (fun _ => false) (fun _ => None) 0 false None 0 0 0 (fun _ => None) (fun _ => 0) 0%Z 0%Z
   end.
 
 Definition hinit (n0 : nat) (ops : list hop) : hcstate :=
-  mkHcs [n0] (fun _ _ => None) (fun _ _ => false) 0 false (fun _ => None) [fun _ => None] (fun _ => 0) (map thread_of ops).
+  mkHcs [n0] (fun _ _ => None) (fun _ _ => false) 0 false (fun _ => None) [fun _ => None] (fun _ => 0) (fun _ => 0%Z) (map thread_of ops).
 
 End Model.
